@@ -108,7 +108,7 @@ pub enum G {
 
 pub const N_UN: u8 = 7;
 
-pub const N_TEXT: u8 = 11;
+pub const N_TEXT: u8 = 15;
 
 #[derive(Clone, Debug)]
 pub struct GenCfg {
@@ -196,8 +196,11 @@ impl<'r> Gen<'r> {
     fn leaf(&mut self, consuming: bool) -> G {
         loop {
             if self.cfg.allow_text && self.rng.chance(1, 3) {
-                let top = if self.cfg.allow_regex { N_TEXT } else { 9 };
-                let k = self.rng.below(top as u64) as u8;
+                // 0..9 text parsers, 9..13 regexes, 13..15 keywords
+                let mut k = self.rng.below(N_TEXT as u64) as u8;
+                if (9..=12).contains(&k) && !self.cfg.allow_regex {
+                    k = 13 + k % 2;
+                }
                 if k == 8 && consuming {
                     continue;
                 }
@@ -759,7 +762,7 @@ pub fn sexpr(g: &G) -> String {
         SliceFrom => "slice_from".into(),
         CtxPair(f) => format!("ctx_pair#{}", f),
         CustomApi(k, a) => format!("custom_api#{}({})", k, c(*a)),
-        Text(k) => format!("text#{}", ["ascii_ident", "unicode_ident", "int10", "int16", "digits36", "ws1", "inline_ws1", "newline", "ws0", "regex0", "regex1"].get(*k as usize).copied().unwrap_or("?")),
+        Text(k) => format!("text#{}", ["ascii_ident", "unicode_ident", "int10", "int16", "digits36", "ws1", "inline_ws1", "newline", "ws0", "regex0", "regex1", "regex_wordboundary", "regex_line_anchor", "keyword_ab", "keyword__a7"].get(*k as usize).copied().unwrap_or("?")),
         Padded(a) => format!("(padded {})", sexpr(a)),
         Un(k, n, a) => format!("({}#{} {})", ["map_err", "map_err_with_state", "try_map_with", "with_state", "unwrapped", "with_ctx", "map_ctx"].get(*k as usize).copied().unwrap_or("un?"), n, sexpr(a)),
         FoldWith(true, a, b) => format!("(foldl_with {} {})", sexpr(a), sexpr(b)),
@@ -855,9 +858,23 @@ pub fn sample(g: &G, rng: &mut Rng, nsym: u8, out: &mut Vec<u8>, fuel: &mut i64,
                     _ => out.push(*rng.pick(&[14u8, 15])),
                 },
                 8 => some(&[8, 9, 10, 14], 0, 3, rng, out),
-                9 => {
+                9 | 11 | 12 => {
                     some(&[0, 2, 4, 1], 1, 3, rng, out);
                     some(&[11, 12], 0, 2, rng, out);
+                }
+                13 => {
+                    // "ab" in either alphabet (bytes: symbols 0 1; chars: symbols 0 2), sometimes a longer identifier
+                    out.push(0);
+                    out.push(if rng.chance(1, 2) { 1 } else { 2 });
+                    if rng.chance(1, 4) {
+                        out.push(0);
+                    }
+                }
+                14 => {
+                    out.extend_from_slice(&[13, 0, 12]);
+                    if rng.chance(1, 4) {
+                        out.push(13);
+                    }
                 }
                 _ => some(&[0, 1, 2, 3, 4, 5, 6, 7, 10, 12, 13, 14, 15], 1, 4, rng, out),
             }
@@ -1057,7 +1074,7 @@ pub fn needs_caps(g: &G) -> Need {
         borrow: contains(g, &|x| matches!(x, G::AnyRef | G::SelectRef(_))),
         exact: contains(g, &|x| matches!(x, G::SpanFrom)),
         strin: contains(g, &|x| matches!(x, G::Text(_))),
-        regex: contains(g, &|x| matches!(x, G::Text(k) if *k >= 9)),
+        regex: contains(g, &|x| matches!(x, G::Text(k) if (9..=12).contains(k))),
         nest: contains(g, &|x| matches!(x, G::Nested(..))),
     }
 }
